@@ -164,7 +164,9 @@ CLAIMED.update(
             "SUT / exception imports before their users; every exception named in pytest.raises is recorded and imported unless builtin (no other exclusion); the re-execution "
             "namespace binds the names of the rendered from-import through one shared helper; assertions that failed and assertions that raised when replayed are both removed, "
             "each under its own membership test only; _public_sut_names, interpreted over a representative module, lists every public attribute (imported names included) but the alias, sorted; "
-            "the exception types to import are accumulated over all test cases (the accumulator is never rebound in the loop). That the emitted tests pass, and validity of rendered values (C20), are not decided.",
+            "the exception types to import are accumulated over all test cases (the accumulator is never rebound in the loop); the writer's collector of enum classes (found by behaviour), "
+            "interpreted over members bare and nested in list / tuple / set / dict keys and values, yields every class the rendering names, is applied to the asserted value of every assertion of "
+            "every statement of every test case, and feeds the emitted from-imports with no exclusion by name prefix. That the emitted tests pass, and validity of rendered values (C20), are not decided.",
             "Trusts python's ast; the list-building idioms (list display, append/extend) of TestSuiteWriter.write are interpreted syntactically.",
             "DESIGN.md §3 C18",
         ),
